@@ -9,7 +9,6 @@ import chartparse.instrument as I
 import chartparse.sync as S
 import chartparse.track as T
 from chartparse.sync import BPMEvent, BPMEvents
-from harness.h_instrument import RecTempo
 from harness.h_sync import BPMS, governing, mk_events
 
 KIND = H.part("VF_KIND", 0)
@@ -34,24 +33,25 @@ def _mk(kind, tick, a, b):
     return cls, d, lambda e: e.value == "v a\"l"
 
 
-def constructor_dataflow(tick: int, a: int, b: int, us: int, idx: int, prev_idx: int,
-                         has_prev: bool) -> bool:
+def constructor_dataflow(prev_tick: int, tick: int, a: int, b: int, tb: int, has_prev: bool) -> bool:
     """
-    pre: tick >= 0 and a >= 0 and -1 <= b <= 6
+    pre: 0 <= prev_tick <= tick and a >= 0 and -1 <= b <= 6 and tb > 0
     post: _
     """
+    from harness.h_instrument import FuncTempo
     kind = KINDS[KIND]
     cls, d, payload_ok = _mk(kind, tick, a, b)
-    tempo = RecTempo(192, [(us, idx)])
+    tempo = FuncTempo(192, tb)
     prev = None
     if has_prev:
-        pcls, pd, _ = _mk(kind, 0, 0, 0)
-        prev = pcls.from_parsed_data(pd, None, RecTempo(192, [(0, prev_idx)]))
-    ev = cls.from_parsed_data(d, prev, tempo)
-    ok = len(tempo.calls) == 1
-    ok = ok and tempo.calls[0][0] == tick and tempo.calls[0][1] == (prev_idx if has_prev else 0)
-    ok = ok and type(ev) is cls and ev.tick == tick and ev.timestamp.us == us
-    ok = ok and ev._proximal_bpm_event_index == idx and payload_ok(ev)
+        pcls, pd, _ = _mk(kind, prev_tick, 0, 0)
+        prev = pcls.from_parsed_data(pd, None, tempo)
+    ev = cls.from_parsed_data(d, prev, tempo)       # sorted input: must not be rejected
+    ok = type(ev) is cls and ev.tick == tick and ev.timestamp.us == tempo.F(tick)
+    # the stored index must be usable as a hint for any later tick of this section
+    ok = ok and 0 <= ev._proximal_bpm_event_index <= tempo.G(tick) and payload_ok(ev)
+    if has_prev:
+        ok = ok and prev.tick == prev_tick and prev.timestamp.us == tempo.F(prev_tick)
     return done(ok)
 
 
